@@ -24,6 +24,10 @@ func init() {
 			"correctness of net.IPNet.Contains and ipaddr cursors, ipfamily.ForService.",
 		Run: runC02,
 		Mutants: []Mutant{
+			{Name: "pinned-groups-sorted-apart", File: "internal/allocator/allocator.go",
+				Old: "\tfor _, svcPoolName := range a.pools.ByServiceSelector {\n\t\tif svcPool, ok := a.pools.ByName[svcPoolName]; ok {\n\t\t\tif !svcPool.AutoAssign || !a.isPoolCompatibleWithService(svcPool, svc) {\n\t\t\t\tcontinue\n\t\t\t}\n\t\t\tpools = append(pools, svcPool)\n\t\t}\n\t}\n\tsortPools(pools)\n\treturn pools", New: "\tvar late []*config.Pool\n\tfor _, svcPoolName := range a.pools.ByServiceSelector {\n\t\tif svcPool, ok := a.pools.ByName[svcPoolName]; ok {\n\t\t\tif !svcPool.AutoAssign || !a.isPoolCompatibleWithService(svcPool, svc) {\n\t\t\t\tcontinue\n\t\t\t}\n\t\t\tlate = append(late, svcPool)\n\t\t}\n\t}\n\tsortPools(pools)\n\tsortPools(late)\n\treturn append(pools, late...)", Expect: "returns-the-sorted-list"},
+			{Name: "write-decided-on-status-alone", File: "controller/main.go",
+				Old: "\tif !reflect.DeepEqual(svcRo.Annotations, svc.Annotations) {\n\t\ttoWrite.Annotations = svc.Annotations\n\t}\n", New: "", Expect: "changed-annotations-is-written"},
 			{Name: "unlabelled-service-never-compatible", File: "internal/allocator/allocator.go",
 				Old: "\tif p.ServiceAllocations != nil && len(p.ServiceAllocations.ServiceSelectors) > 0 {\n\t\tsvcLabels := labels.Set(svc.Labels)\n",
 				New: "\tif p.ServiceAllocations != nil && len(p.ServiceAllocations.ServiceSelectors) > 0 {\n\t\tif len(svc.Labels) == 0 {\n\t\t\treturn false\n\t\t}\n\t\tsvcLabels := labels.Set(svc.Labels)\n", Expect: "return-false:justified"},
@@ -104,6 +108,9 @@ func runC02(p *chk.Prog, r *chk.Report) {
 	c02AllocateTo(p, r)
 	c02Annotation(p, r)
 	c02FamilySelect(p, r)
+	// the recorded pool annotation reaches the API object: a changed annotation alone is a reason to write
+	// (WRITE-ON-CHANGE, shared with C03)
+	c03Write(p, r)
 	c02FirstPoolWins(p, r)
 	cidrContainmentRule(p, r)
 	familyOfRule(p, r)
@@ -326,6 +333,54 @@ func c02Pinned(p *chk.Prog, r *chk.Report) {
 		}
 	}
 	if list != nil {
+		// one ordering over everything pinned: what is returned is the very list that sortPools was given, and every list
+		// the pools were gathered in is that list or was joined into it (two lists sorted on their own and concatenated
+		// put a priority-1 selector pool behind a priority-5 namespace pool)
+		lists := map[types.Object]bool{}
+		for _, a := range apps {
+			lists[f.ObjOf(a.Node.(*ast.AssignStmt).Lhs[0])] = true
+		}
+		notNil := g.GPat(false, "S == nil", chk.H("S", isParam(f, "svc")))
+		for _, rt := range returnsOf(g) {
+			res := retResults(rt)
+			if len(res) != 1 || f.IsNilLit(res[0]) {
+				continue
+			}
+			ro := f.ObjOf(res[0])
+			if ro == nil {
+				if g.Dominated(rt, notNil) {
+					x.Fail("pinned:returns-the-sorted-list", rt.Pos(), "what is returned is not the list that was sorted (lists sorted one by one and joined afterwards are not in priority order)")
+				}
+				continue
+			}
+			if !g.Dominated(rt, notNil) && !g.EdgeImpliesAny(notNil) {
+				continue
+			}
+			sortedHere := g.Dominated(rt, chk.GEvent(f.ContainsPat("sortPools(L)", chk.H("L", f.IsObj(ro)))))
+			if !g.Dominated(rt, notNil) {
+				continue // the nil-service return: nothing gathered
+			}
+			joined := map[types.Object]bool{ro: true}
+			for _, a := range assignsTo(f, ro) {
+				if as, isAs := a.(*ast.AssignStmt); isAs {
+					for _, rhs := range as.Rhs {
+						ast.Inspect(rhs, func(n ast.Node) bool {
+							if id, isId := n.(*ast.Ident); isId && f.ObjOf(id) != nil {
+								joined[f.ObjOf(id)] = true
+							}
+							return true
+						})
+					}
+				}
+			}
+			all := true
+			for l := range lists {
+				if !joined[l] {
+					all = false
+				}
+			}
+			x.Check("pinned:returns-the-sorted-list", rt.Pos(), sortedHere && all, "", "what is returned is not one list holding every pinned pool that sortPools was given (lists sorted one by one and joined afterwards are not in priority order)")
+		}
 		w := (&chk.Walk{G: g, Stop: f.ContainsPat("sortPools(L)", chk.H("L", f.IsObj(list))),
 			Hit: func(n ast.Node) bool { _, ok := n.(*ast.ReturnStmt); return ok },
 			Cut: func(b *cfgBlock, k int) bool {
